@@ -42,6 +42,11 @@ enum Tool {
     Unknown,
     /// only as a tool envelope with an expiring timeout
     BashSleep,
+    /// `bash` whose output exceeds its preview (`max_bytes`): the rest goes to an overflow artifact under
+    /// `<ws>/.rip/artifacts` - a side write of the TOOL (fails when that directory is damaged)
+    BashOverflow,
+    /// calibration key only: BashOverflow on a store whose artifact directory is damaged
+    BashOverflowDamaged,
     /// `read utf8.txt` with `max_bytes` = the argument: the cut falls inside 2-/3-/4-byte characters
     ReadCut(u8),
     /// `bash` that puts something else where a best-effort write of the run's exit path (or of a later run) wants to go:
@@ -59,12 +64,18 @@ enum Target {
     SnapFile,
     /// `<data>/continuity_streams` replaced by a regular file: the sidecar / index writes of every later thread frame fail
     StreamCache,
+    /// every full sidecar `<data>/continuity_streams/<thread>.jsonl` made a directory (the file the run_ended line goes to)
+    SidecarFull,
+    /// every messages+runs sidecar `<thread>.mr.v1.jsonl` made a directory (the cache run_ended is indexed in)
+    SidecarMr,
+    /// every seek / message index (`*.seek.v1.jsonl`, `*.bin`) made a directory
+    SidecarIdx,
     /// `<ws>/.rip/artifacts` replaced by a regular file: context bundles cannot be written (later compiles fail)
     Artifacts,
     /// `<ws>/.rip/checkpoints` replaced by a regular file: the auto checkpoint of a later mutating tool fails
     Checkpoints,
 }
-const DIR_TARGETS: [Target; 4] = [Target::SnapDir, Target::StreamCache, Target::Artifacts, Target::Checkpoints];
+const DIR_TARGETS: [Target; 7] = [Target::SnapDir, Target::StreamCache, Target::SidecarFull, Target::SidecarMr, Target::SidecarIdx, Target::Artifacts, Target::Checkpoints];
 impl Target {
     fn command(self, sid: Option<&str>) -> String {
         let swap = |p: &str| format!("rm -rf {p} && : > {p}");
@@ -72,6 +83,10 @@ impl Target {
             Target::SnapDir => swap("../data/snapshots"),
             Target::SnapFile => format!("mkdir -p ../data/snapshots/{}.json", sid.unwrap_or("unknown-session")),
             Target::StreamCache => swap("../data/continuity_streams"),
+            // (`<uuid>.jsonl` only: the 12 characters in front of `.jsonl` follow a `-`)
+            Target::SidecarFull => "for f in ../data/continuity_streams/*-????????????.jsonl; do [ -e \"$f\" ] || continue; rm -rf \"$f\"; mkdir -p \"$f\"; done".to_string(),
+            Target::SidecarMr => "for f in ../data/continuity_streams/*.mr.v1.jsonl; do [ -e \"$f\" ] || continue; rm -rf \"$f\"; mkdir -p \"$f\"; done".to_string(),
+            Target::SidecarIdx => "for f in ../data/continuity_streams/*.seek.v1.jsonl ../data/continuity_streams/*.bin; do [ -e \"$f\" ] || continue; rm -rf \"$f\"; mkdir -p \"$f\"; done".to_string(),
             Target::Artifacts => "mkdir -p .rip && rm -rf .rip/artifacts && : > .rip/artifacts".to_string(),
             Target::Checkpoints => "mkdir -p .rip && rm -rf .rip/checkpoints && : > .rip/checkpoints".to_string(),
         }
@@ -80,7 +95,7 @@ impl Target {
     fn sw_code(self) -> u64 {
         match self {
             Target::SnapDir | Target::SnapFile => 1,
-            Target::StreamCache => 2,
+            Target::StreamCache | Target::SidecarFull | Target::SidecarMr | Target::SidecarIdx => 2,
             Target::Artifacts => 3,
             Target::Checkpoints => 4,
         }
@@ -88,7 +103,7 @@ impl Target {
 }
 /// one line: 2 ASCII bytes, then 2-byte characters from offset 2, 3-byte from 18, 4-byte from 42 (74 bytes)
 const UTF8_FILE: &str = "abéééééééé€€€€€€€€😀😀😀😀😀😀😀😀";
-const CALL_TOOLS: [Tool; 9] = [Tool::Ls, Tool::ReadOk, Tool::ReadMissing, Tool::ReadBadArgs, Tool::WriteOk, Tool::WriteBadArgs, Tool::BashEcho, Tool::BashFail, Tool::Unknown];
+const CALL_TOOLS: [Tool; 10] = [Tool::Ls, Tool::ReadOk, Tool::ReadMissing, Tool::ReadBadArgs, Tool::WriteOk, Tool::WriteBadArgs, Tool::BashEcho, Tool::BashFail, Tool::Unknown, Tool::BashOverflow];
 
 impl Tool {
     fn name(self) -> &'static str {
@@ -96,7 +111,7 @@ impl Tool {
             Tool::Ls => "ls",
             Tool::ReadOk | Tool::ReadMissing | Tool::ReadBadArgs | Tool::ReadCut(_) => "read",
             Tool::WriteOk | Tool::WriteBadArgs => "write",
-            Tool::BashEcho | Tool::BashFail | Tool::BashSleep | Tool::Damage(_) => "bash",
+            Tool::BashEcho | Tool::BashFail | Tool::BashSleep | Tool::Damage(_) | Tool::BashOverflow | Tool::BashOverflowDamaged => "bash",
             Tool::Unknown => "frobnicate",
         }
     }
@@ -112,6 +127,7 @@ impl Tool {
             Tool::BashFail => json!({"command": "echo oops 1>&2; exit 3"}),
             Tool::Unknown => json!({"x": 1}),
             Tool::BashSleep => json!({"command": "sleep 2"}),
+            Tool::BashOverflow | Tool::BashOverflowDamaged => json!({"command": "echo 0123456789abcdefghijklmnopqrstuvwxyz; echo second line", "max_bytes": 8}),
             Tool::ReadCut(k) => json!({"path": "utf8.txt", "max_bytes": k}),
             Tool::Damage(t) => json!({"command": t.command(None)}),
         }
@@ -346,6 +362,8 @@ struct SidePlan {
     no_artifacts: Vec<bool>,
     /// `.rip/checkpoints` is damaged when activity i's run starts
     no_checkpoints: Vec<bool>,
+    /// a sidecar file of the thread is a directory when activity i's run compiles: the compile outcome is observed
+    compile_observed: Vec<bool>,
     any: bool,
 }
 fn act_damage(a: &Act) -> Vec<Target> {
@@ -370,7 +388,7 @@ fn act_damage(a: &Act) -> Vec<Target> {
 fn side_plan(c: &Case) -> SidePlan {
     let n = c.acts.len();
     let hook = !c.side_faults.is_empty();
-    let mut pl = SidePlan { snap_fails: vec![hook; n], codes: vec![if hook { vec![1] } else { vec![] }; n], no_artifacts: vec![false; n], no_checkpoints: vec![false; n], any: hook };
+    let mut pl = SidePlan { snap_fails: vec![hook; n], codes: vec![if hook { vec![1] } else { vec![] }; n], no_artifacts: vec![false; n], no_checkpoints: vec![false; n], compile_observed: vec![false; n], any: hook };
     for (i, a) in c.acts.iter().enumerate() {
         for t in act_damage(a) {
             pl.any = true;
@@ -383,6 +401,7 @@ fn side_plan(c: &Case) -> SidePlan {
                     Target::SnapDir | Target::SnapFile => pl.snap_fails[j] = true,
                     Target::Artifacts if j > i => pl.no_artifacts[j] = true,
                     Target::Checkpoints if j > i => pl.no_checkpoints[j] = true,
+                    Target::SidecarFull | Target::SidecarMr | Target::SidecarIdx if j > i => pl.compile_observed[j] = true,
                     _ => {}
                 }
             }
@@ -1608,13 +1627,26 @@ async fn exec_case(c: &Case, root: &Path) -> Result<Exec, String> {
 /// calibration store (tool envelope, unlinked session)
 type Calib = BTreeMap<Tool, (u64, u64)>;
 
-/// `nock` = `.rip/checkpoints` is damaged: the auto checkpoint of a mutating tool fails
-fn tool_out_term(t: Tool, res: &str, nock: bool) -> String {
-    format!("{{| t_auto := {}; t_res := {} |}}", if nock && t.auto() == 1 { 2 } else { t.auto() }, res)
+/// what the damaged side directories mean for the tools of a run: `nock` = `.rip/checkpoints` is damaged (the auto
+/// checkpoint of a mutating tool fails), `noart` = `.rip/artifacts` is damaged (an overflow artifact cannot be written)
+#[derive(Clone, Copy, Default)]
+struct Cx {
+    nock: bool,
+    noart: bool,
 }
-fn tool_res(t: Tool, cal: &Calib, expires: bool) -> String {
+fn tool_out_term(t: Tool, res: &str, cx: Cx) -> String {
+    format!("{{| t_auto := {}; t_res := {} |}}", if cx.nock && t.auto() == 1 { 2 } else { t.auto() }, res)
+}
+/// a calibration entry whose tool ended with tool_failed instead of tool_ended
+const CAL_FAILED: (u64, u64) = (u64::MAX, 0);
+fn tool_res(t: Tool, cal: &Calib, expires: bool, cx: Cx) -> String {
     if expires {
         return "TTimeout".into();
+    }
+    let t = if t == Tool::BashOverflow && cx.noart { Tool::BashOverflowDamaged } else { t };
+    if cal.get(&t) == Some(&CAL_FAILED) {
+        // (started, failed: the same two frames as an unknown tool)
+        return "TUnknown".into();
     }
     match t {
         Tool::Unknown => "TUnknown".into(),
@@ -1634,10 +1666,10 @@ fn allowed(c: Choice, t: Tool) -> bool {
         Choice::NoTools | Choice::AllowedModeNone => false,
     }
 }
-fn call_term(t: Tool, ch: Choice, cal: &Calib, nock: bool) -> String {
-    format!("{{| c_allowed := {}; c_lock := {}; c_tool := {} |}}", coq_bool(allowed(ch, t)), coq_bool(t.lock()), tool_out_term(t, &tool_res(t, cal, false), nock))
+fn call_term(t: Tool, ch: Choice, cal: &Calib, cx: Cx) -> String {
+    format!("{{| c_allowed := {}; c_lock := {}; c_tool := {} |}}", coq_bool(allowed(ch, t)), coq_bool(t.lock()), tool_out_term(t, &tool_res(t, cal, false, cx), cx))
 }
-fn reqs_term(p: &ProviderSpec, preds: &[Pred], cal: &Calib, nock: bool) -> String {
+fn reqs_term(p: &ProviderSpec, preds: &[Pred], cal: &Calib, cx: Cx) -> String {
     let mut out: Vec<String> = vec![];
     if choice_invalid(p.choice) {
         out.push("RInvalid".into());
@@ -1658,7 +1690,7 @@ fn reqs_term(p: &ProviderSpec, preds: &[Pred], cal: &Calib, nock: bool) -> Strin
                     match s.class {
                         1 => "RFirstErr".into(),
                         2 => format!("(RMidErr {pf})"),
-                        _ => format!("(ROk {pf} {} {})", coq_bool(s.has_id), coq_list(&s.calls, |t| call_term(*t, p.choice, cal, nock))),
+                        _ => format!("(ROk {pf} {} {})", coq_bool(s.has_id), coq_list(&s.calls, |t| call_term(*t, p.choice, cal, cx))),
                     }
                 }
             });
@@ -1666,10 +1698,10 @@ fn reqs_term(p: &ProviderSpec, preds: &[Pred], cal: &Calib, nock: bool) -> Strin
     }
     coq_list(&out, |s| s.clone())
 }
-fn input_term(i: &InputSpec, p: Option<&ProviderSpec>, preds: &[Pred], cal: &Calib, compile_ok: bool, nock: bool) -> String {
+fn input_term(i: &InputSpec, p: Option<&ProviderSpec>, preds: &[Pred], cal: &Calib, compile_ok: bool, cx: Cx) -> String {
     match i {
-        InputSpec::Prompt => format!("(IPrompt {} {})", coq_bool(compile_ok), match p { Some(p) => reqs_term(p, preds, cal, nock), None => "[]".into() }),
-        InputSpec::ToolEnv { tool, tmo } => format!("(ITool {} {})", coq_bool(tool.lock()), tool_out_term(*tool, &tool_res(*tool, cal, *tmo == 2), nock)),
+        InputSpec::Prompt => format!("(IPrompt {} {})", coq_bool(compile_ok), match p { Some(p) => reqs_term(p, preds, cal, cx), None => "[]".into() }),
+        InputSpec::ToolEnv { tool, tmo } => format!("(ITool {} {})", coq_bool(tool.lock()), tool_out_term(*tool, &tool_res(*tool, cal, *tmo == 2, cx), cx)),
         InputSpec::CkCreate { ok } => format!("(ICheckpoint {})", if *ok { "CkCreatedOk" } else { "CkFail" }),
         InputSpec::CkRewindMissing => "(ICheckpoint CkFail)".into(),
         InputSpec::CkRewindOwn => "(ICheckpoint CkRewoundOk)".into(),
@@ -1704,6 +1736,15 @@ fn case_term(c: &Case, ex: &Exec, cal: &Calib) -> Option<String> {
     }
     let idmap = IdMap(idmap);
     let plan = side_plan(c);
+    // the compile outcome of a linked provider run: predicted - fails iff the summaries / the artifact directory are broken -
+    // except after a sidecar FILE was made a directory (which reader falls back to the log is C05/C08's business): observed
+    let compile_ok = |i: usize, sid: &str| -> bool {
+        if plan.compile_observed[i] {
+            !ex.log.iter().any(|l| l.stream == sid && l.ty == "session_ended" && l.s("reason") == "context_compile_failed")
+        } else {
+            !c.break_summaries && !plan.no_artifacts[i]
+        }
+    };
     let cut_tools = read_cut_tool_ids(&ex.log);
     let njobs = ex.ids.iter().filter(|i| i.job.is_some()).count();
     let mut acts = vec![];
@@ -1737,7 +1778,7 @@ fn case_term(c: &Case, ex: &Exec, cal: &Calib) -> Option<String> {
                 for l in owned {
                     flat.extend(enc_line(l, &idmap, &cut_tools));
                 }
-                acts.push(format!("(AInput {} {} {})", cfg_term(None), num, input_term(input, None, &[], cal, true, false)));
+                acts.push(format!("(AInput {} {} {})", cfg_term(None), num, input_term(input, None, &[], cal, true, Cx::default())));
                 expects.push(coq_list_n(&flat));
             }
             continue;
@@ -1750,7 +1791,7 @@ fn case_term(c: &Case, ex: &Exec, cal: &Calib) -> Option<String> {
                 };
                 let (input, provider) = (&input, &provider);
                 let (Some(sid), Some(mid)) = (&id.sid, &id.mid) else { return None };
-                let t = format!("APost {} {} {} {}", cfg_term(provider.as_ref()), 200 + i, 100 + i, input_term(input, provider.as_ref(), &ex.preds[i], cal, !c.break_summaries && !plan.no_artifacts[i], plan.no_checkpoints[i]));
+                let t = format!("APost {} {} {} {}", cfg_term(provider.as_ref()), 200 + i, 100 + i, input_term(input, provider.as_ref(), &ex.preds[i], cal, compile_ok(i, sid), Cx { nock: plan.no_checkpoints[i], noart: plan.no_artifacts[i] }));
                 let o = ex.log.iter().filter(|l| (l.is_session() && l.stream == *sid) || (l.is_cont() && ((l.ty == "continuity_message_appended" && l.id == *mid) || l.s("run_session_id") == *sid))).collect();
                 (t, o)
             }
@@ -1759,7 +1800,7 @@ fn case_term(c: &Case, ex: &Exec, cal: &Calib) -> Option<String> {
                 if id.status != 202 {
                     return None;
                 }
-                let t = format!("AInput {} {} {}", cfg_term(provider.as_ref()), 100 + i, input_term(input, provider.as_ref(), &ex.preds[i], cal, true, plan.no_checkpoints[i]));
+                let t = format!("AInput {} {} {}", cfg_term(provider.as_ref()), 100 + i, input_term(input, provider.as_ref(), &ex.preds[i], cal, true, Cx { nock: plan.no_checkpoints[i], noart: plan.no_artifacts[i] }));
                 let o = ex.log.iter().filter(|l| l.is_session() && l.stream == *sid).collect();
                 (t, o)
             }
@@ -1769,7 +1810,7 @@ fn case_term(c: &Case, ex: &Exec, cal: &Calib) -> Option<String> {
                 if id.status != 202 || id.status2 == 202 {
                     return None;
                 }
-                let t = format!("AInput {} {} {}", cfg_term(None), 100 + i, input_term(first, None, &[], cal, true, false));
+                let t = format!("AInput {} {} {}", cfg_term(None), 100 + i, input_term(first, None, &[], cal, true, Cx::default()));
                 let o = ex.log.iter().filter(|l| l.is_session() && l.stream == *sid).collect();
                 (t, o)
             }
@@ -2155,10 +2196,11 @@ fn side_write_cases(r: &mut Rng, thorough: bool) -> Vec<Case> {
     let prov = |reqs: Vec<Req>| Some(ProviderSpec { stateless: false, choice: Choice::Auto, closed_port: false, forever: false, reqs });
     let text = || text_req(vec![Sse::Created { id: true }, Sse::Delta, Sse::Completed { id: true }]);
     let next = |k: u64| -> Act {
-        match k % 7 {
+        match k % 8 {
+            7 => Act::Post { input: InputSpec::ToolEnv { tool: Tool::BashOverflow, tmo: 0 }, provider: None },
             0 => Act::Post { input: InputSpec::Prompt, provider: None },
             1 => Act::Post { input: InputSpec::Prompt, provider: prov(vec![text()]) },
-            2 => Act::Post { input: InputSpec::Prompt, provider: prov(vec![text_req(vec![Sse::Created { id: true }, Sse::Call(Tool::WriteOk), Sse::Call(Tool::Ls)]), text()]) },
+            2 => Act::Post { input: InputSpec::Prompt, provider: prov(vec![text_req(vec![Sse::Created { id: true }, Sse::Call(Tool::WriteOk), Sse::Call(Tool::Ls), Sse::Call(Tool::BashOverflow)]), text()]) },
             3 => Act::Post { input: InputSpec::ToolEnv { tool: Tool::WriteOk, tmo: 0 }, provider: None },
             4 => Act::Post { input: InputSpec::ToolEnv { tool: Tool::BashEcho, tmo: 1 }, provider: None },
             5 => Act::Input { input: InputSpec::ToolEnv { tool: Tool::Ls, tmo: 0 }, provider: None },
@@ -2166,7 +2208,7 @@ fn side_write_cases(r: &mut Rng, thorough: bool) -> Vec<Case> {
         }
     };
     let mut out = vec![];
-    let mut k = r.below(7);
+    let mut k = r.below(8);
     for t in DIR_TARGETS {
         for delivery in 0..3u8 {
             for engine in [false, true] {
@@ -2183,7 +2225,7 @@ fn side_write_cases(r: &mut Rng, thorough: bool) -> Vec<Case> {
                     }
                     acts.push(damage.clone());
                     acts.push(next(k));
-                    acts.push(next(k + 1 + k / 7));
+                    acts.push(next(k + 1 + k / 8));
                     k += 1;
                     // an unlinked session's provider would be the router's app-level default: keep those runs provider-less there
                     out.push(Case { faults: vec![], side_faults: vec![], engine, parallel: false, acts, break_summaries: false });
@@ -2222,7 +2264,20 @@ fn calibrate(rt: &tokio::runtime::Runtime) -> Calib {
         let sid = id.sid.clone().unwrap_or_default();
         let o = ex.log.iter().filter(|l| l.stream == sid && l.ty == "tool_stdout").count() as u64;
         let e = ex.log.iter().filter(|l| l.stream == sid && l.ty == "tool_stderr").count() as u64;
-        cal.insert(*t, (o, e));
+        let failed = ex.log.iter().any(|l| l.stream == sid && l.ty == "tool_failed");
+        cal.insert(*t, if failed && *t != Tool::Unknown { CAL_FAILED } else { (o, e) });
+    }
+    // the overflowing command on a store whose artifact directory was replaced by a file
+    {
+        let sc = Scratch::new("c07cal");
+        let acts = vec![Act::Input { input: InputSpec::ToolEnv { tool: Tool::Damage(Target::Artifacts), tmo: 0 }, provider: None }, Act::Input { input: InputSpec::ToolEnv { tool: Tool::BashOverflow, tmo: 0 }, provider: None }];
+        let c = Case { faults: vec![], side_faults: vec![], engine: true, parallel: false, acts, break_summaries: false };
+        let ex = rt.block_on(exec_case(&c, sc.path())).expect("calibration store");
+        let sid = ex.ids[1].sid.clone().unwrap_or_default();
+        let o = ex.log.iter().filter(|l| l.stream == sid && l.ty == "tool_stdout").count() as u64;
+        let e = ex.log.iter().filter(|l| l.stream == sid && l.ty == "tool_stderr").count() as u64;
+        let failed = ex.log.iter().any(|l| l.stream == sid && l.ty == "tool_failed");
+        cal.insert(Tool::BashOverflowDamaged, if failed { CAL_FAILED } else { (o, e) });
     }
     // the damaging commands, each on a store of its own (engine route: the session id is known when the input is written)
     for t in DIR_TARGETS.iter().chain(std::iter::once(&Target::SnapFile)) {
